@@ -205,7 +205,10 @@ DTYPES = ["single", "double", "quad", "float32", "float64", "longdouble", "f", "
 @st.composite
 def build_cases(draw, names):
     return {"model": draw(st.sampled_from(names)), "dtype": draw(st.sampled_from(DTYPES)),
-            "bang": draw(st.booleans())}
+            "bang": draw(st.booleans()),
+            # the call itself also crosses the precision boundary: the cutoff is passed by value
+            "cutoff": draw(st.sampled_from([0.0, 0.0, 1e-5, 1e-3, 0.01, 0.05])),
+            "disperse": draw(st.booleans())}
 
 
 def check_build(case, rec):
@@ -230,11 +233,20 @@ def check_build(case, rec):
         rec.fail("library-name:%s" % dt, "%s: library %s lacks the %d-bit tag" % (req, model.dllpath, bits))
     q = np.array([0.005, 0.02, 0.1, 0.3])
     kernel = model.make_kernel([q])
-    got = direct_model.call_kernel(kernel, {}, cutoff=0.0)
+    pars, cutoff = {}, case.get("cutoff", 0.0)
+    pd_names = [p.name for p in info.parameters.kernel_parameters if p.polydisperse and p.type == "volume" and p.length == 1]
+    if case.get("disperse") and pd_names:
+        # 13 points over +-3 sigma: Gaussian weights exp(-k^2/8) = 1, .88, .61, .32, .135, .044, .011; the cutoff
+        # 0.05 removes the outer two on each side, and no weight is within 10% of any cutoff drawn, so single
+        # and double precision select the same points
+        pars = {pd_names[0] + "_pd": 0.1, pd_names[0] + "_pd_n": 13, pd_names[0] + "_pd_nsigma": 3.0}
+        rec.cls("call:dispersed")
+    rec.cls("call:cutoff=%g" % cutoff)
+    got = direct_model.call_kernel(kernel, dict(pars), cutoff=cutoff)
     if np.asarray(got).dtype != np.dtype(want):
         rec.fail("result-dtype:%s" % dt, "result array is %r" % (np.asarray(got).dtype,))
     ref_model = core.load_model(name, dtype="double", platform="dll")
-    ref = direct_model.call_kernel(ref_model.make_kernel([q]), {}, cutoff=0.0)
+    ref = direct_model.call_kernel(ref_model.make_kernel([q]), dict(pars), cutoff=cutoff)
     rel = np.max(np.abs(np.asarray(got, float) - ref)) / max(np.max(np.abs(ref)), 1e-300)
     if want is np.float32:
         if info.single and not rel <= 5e-5:
@@ -258,4 +270,4 @@ def run_shard(ctx, spec):
     for name in spec["models"]:
         ctx.run_case("source", {"model": name})
     ctx.explore("fragment", fragments(), 1500 if quick else 60000)
-    ctx.explore("build", build_cases(spec["models"]), 10 if quick else 150, shrink_examples=10)
+    ctx.explore("build", build_cases(spec["models"]), 25 if quick else 200, shrink_examples=10)
